@@ -38,6 +38,15 @@ def gen(ctx, n, progs):
         out.append((prog, bursty(ctx.rng, th, lo=40, hi=400, flush=ctx.rng.choice([0.0, 0.02, 0.1, 0.3]), means=(1, 3, 10, 30, 60))))
     return out
 
+def bp_cases(ctx):
+    """bp: a thread makes its first read-side call (= registers) while a grace period is waiting for another reader, and keeps its section open across the next grace period"""
+    out = []
+    for prog in ('(r)/(q)(r)/SS', '(r)(q)/(r)(q)/SSS'):
+        for j in range(4, 90 if ctx.quick() else 160, 2 if ctx.quick() else 1):
+            # t0 enters a section; the updater (t2) runs j steps into its grace period; t1 registers and enters; t0 leaves; the updater finishes and starts the next grace period
+            out.append((prog, '>0' + 'a' * 4 + '2c' * j + '>1' + 'b' * 4 + '>0>0' + 'a' * 4 + '>2' + '2c' * 120 + '>1>1>1'))
+    return out
+
 def refine(ctx, driver, cases, raws, what, project=None):
     """feed the projected traces to the model interpreter"""
     blocks = []
@@ -56,11 +65,11 @@ def refine(ctx, driver, cases, raws, what, project=None):
     ctx.cov['model_actions_checked'] = ctx.cov.get('model_actions_checked', 0) + nact
     ctx.cov['disagreements'] = ctx.cov.get('disagreements', 0) + nrej
 
-def run_flavor(ctx, name, defs, progs, n, driver=None, src='scen_gp.c', orc=None, project=None, model='GpExec (memb model)'):
+def run_flavor(ctx, name, defs, progs, n, driver=None, src='scen_gp.c', orc=None, project=None, model='GpExec (memb model)', extra_cases=()):
     orc = orc or G.oracle
     impl = G.build(ctx, name, defs, src)
     if not impl: return
-    cases = gen(ctx, n, progs)
+    cases = gen(ctx, n, progs) + list(extra_cases)
     tail = ''.join(chr(ord('a') + i) + str(i) for i in range(6)) * 400
     rs = run_many([[impl, p, s + tail] for p, s in cases], timeout=20)
     raws = [r[1] for r in rs]
@@ -88,7 +97,7 @@ def run(ctx):
     mbdriver = build_model_driver(ctx, 'gpmb', 'ExtractGpMb.v', 'gpmb_driver.ml')
     run_flavor(ctx, 'scen_gp_mb', ['-DFLAVOR_MB'], PROGS, n // 2, mbdriver, project=G.project_mb, model='GpMbExec (mb model)')
     run_flavor(ctx, 'scen_qsbr', [], QPROGS, n, src='scen_qsbr.c', orc=G.qsbr_oracle)
-    run_flavor(ctx, 'scen_sig_bp_c01', ['-DFLAVOR_BP'], BPPROGS, n // 2, src='scen_sig.c')
+    run_flavor(ctx, 'scen_sig_bp_c01', ['-DFLAVOR_BP'], BPPROGS, n // 2, src='scen_sig.c', extra_cases=bp_cases(ctx))
     return finish(ctx, trusted=TRUSTED, rule='Step/Flush schedules = corpus + parking sweeps (each thread frozen after k steps while the others complete 1 or 2 whole operations, '
                   'store buffers flushed eagerly or not) + bursty random (flush probability 0-0.3); every scenario has >= 2 consecutive grace periods and both litmus load orders; '
                   'non-trivial = trace has a delayed reader store and reaches the futex path; builds: memb+membarrier (refinement-checked against GpExec), mb (refinement-checked against GpMbExec), memb fallback, qsbr, bp (registration on first use)')
